@@ -113,7 +113,8 @@ class C12(Prop):
         ops.append(["rebal", t, int(by_weight), 1, int(not whole), fr(margin), tgt])
         if rng.random() < 0.5:
             ops.append(["rebal", t + 1, int(by_weight), 1, int(not whole), fr(margin), tgt])
-        return dict(contracts=contracts, fees=["0", "0", "0"], deposit="65536", exact=True, ops=ops)
+        return dict(contracts=contracts, fees=["0", "0", "0"], deposit="65536", exact=True, ops=ops,
+                    probe_make_trades=rng.random() < 0.5)
 
     def run_impl(self, case):
         r, s = bs.run_case(case, self.COMPARE)
